@@ -149,6 +149,17 @@ func GenSProgram(t *rapid.T, cfg SGenCfg) SProgram {
 				SOp{K: "rebuild", N: int64(rapid.IntRange(0, 3).Draw(t, "wpp")), Seed: rapid.IntRange(1, 5000).Draw(t, "seed"),
 					Str: rapid.SampledFrom([]string{"", "", "", "", "skipfile", "verifyfail"}).Draw(t, "interrupt"), On: rapid.IntRange(0, 3).Draw(t, "punch") == 0,
 					Reps: rapid.IntRange(0, 1).Draw(t, "aligned")})
+		case "sysrebuild":
+			n := rapid.IntRange(0, nodes-1).Draw(t, "node")
+			if rapid.IntRange(0, 3).Draw(t, "leavefirst") > 0 {
+				p.Ops = append(p.Ops, SOp{K: rapid.SampledFrom([]string{"remove", "nodedrop"}).Draw(t, "leave"), Node: n})
+				if rapid.Bool().Draw(t, "writewhileaway") {
+					off := rapid.Int64Range(0, total-1).Draw(t, "off")
+					p.Ops = append(p.Ops, SOp{K: "write", Off: off, Len: rapid.Int64Range(1, min64(total-off, 24)).Draw(t, "len"), Seed: rapid.IntRange(1, 250).Draw(t, "seed")})
+				}
+			}
+			p.Ops = append(p.Ops, SOp{K: "sysrebuild", Node: n, N: int64(rapid.IntRange(0, 12).Draw(t, "fgwrites")), Seed: rapid.IntRange(1, 5000).Draw(t, "seed"),
+				Len: int64(rapid.IntRange(0, 400).Draw(t, "gapms")), Reps: rapid.IntRange(0, 1).Draw(t, "aligned")})
 		case "race":
 			p.Ops = append(p.Ops, SOp{K: "race", Node: rapid.IntRange(1, 3).Draw(t, "writers"), N: int64(rapid.IntRange(3, 40).Draw(t, "per")),
 				Reps: rapid.IntRange(1, 3).Draw(t, "snaps"), Off: int64(rapid.IntRange(0, 3000).Draw(t, "delay")), Len: int64(rapid.IntRange(0, 2000).Draw(t, "spacing"))})
